@@ -1509,4 +1509,171 @@ def isFloatLitPy (tok : Text) : Bool :=
 /-- no character of the token is one of the separators `\x1c`–`\x1f` -/
 def noFs (t : Text) : Bool := t.all (fun c => !(28 ≤ c && c ≤ 31))
 
+/-! ## H. phase 5: the whole ARFF reader over CPython's numerals
+
+The definitions of part D with the two numeral functions as parameters (`pi` = `int()` of a sparse index,
+`fl` = "`float()` succeeds" of a numeric cell); `arffReadPy` instantiates them with `parseIntPy` / `isFloatLitPy`.
+`arffRead` (unchanged, imported elsewhere) is the instance with the older `parseInt` / `isFloatLit` (Lemmas:
+`arffReadG_old`), and both agree on files without underscores and `\x1c`–`\x1f` (`arffReadPy_conservative`). -/
+
+def parseKeysG (pi : Text → Option Int) : List Text → Except Err (List Int)
+  | [] => .ok []
+  | k :: ks => match pi k with
+    | none => .error .valueError
+    | some i => match parseKeysG pi ks with
+      | .error e => .error e
+      | .ok r => .ok (i :: r)
+
+def arffSparseLineG (pi : Text → Option Int) (n : Nat) (line : Text) : Except Err (List (Int × Text)) :=
+  let kv := sparseSplit (stripBraces line)
+  if kv = [[]] then .ok []
+  else match parseKeysG pi (evens kv) with
+    | .error e => .error e
+    | .ok keys =>
+      let d := dictOf (keys.zip (odds kv))
+      if d.any (fun p => p.1 < 0 || (n : Int) ≤ p.1) then .error .cobaException else .ok d
+
+def encodeCellG (fl : Text → Bool) (e : Enc) (v : Text) : Except Err Cell :=
+  match e with
+  | .numeric => if fl v then .ok (.num v) else if v = [QM] ∨ v = [] then .ok .missing else .error .valueError
+  | .str => if v = [QM] then .ok .missing else .ok (.str v)
+  | .nominal lv => if lv.contains v then .ok (.cat v lv) else if v = [QM] ∨ v = [] then .ok .missing else .error .cobaException
+
+def encodeRowG (fl : Text → Bool) : List Enc → List Text → Except Err (List Cell)
+  | e :: es, v :: vs => (match encodeCellG fl e v with
+    | .error er => .error er
+    | .ok c => match encodeRowG fl es vs with | .error er => .error er | .ok r => .ok (c :: r))
+  | _, _ => .ok []
+
+def denseRowsG (fl : Text → Bool) (encs : List Enc) (n : Nat) (s : ALRF) : List Text → Except Err (List DenseRow)
+  | [] => .ok []
+  | line :: ls =>
+    if line.head? = some PCT then denseRowsG fl encs n s ls
+    else match arffLineStepF n s line with
+      | .error e => .error e
+      | .ok (s1, raw) => match encodeRowG fl encs raw with
+        | .error e => .error e
+        | .ok cells => match denseRowsG fl encs n s1 ls with
+          | .error e => .error e
+          | .ok r => .ok (⟨cells, denseMissing line⟩ :: r)
+
+def sparseItemsG (fl : Text → Bool) (names : List Text) (encs : List Enc) : List (Int × Text) → Except Err (List (Text × Cell))
+  | [] => .ok []
+  | (k, v) :: r =>
+    match nthD names k.toNat, nthD encs k.toNat with
+    | some nm, some e => (match encodeCellG fl e v with
+      | .error er => .error er
+      | .ok c => match sparseItemsG fl names encs r with | .error er => .error er | .ok rest => .ok ((nm, c) :: rest))
+    | _, _ => sparseItemsG fl names encs r
+
+def sparseRowsG (pi : Text → Option Int) (fl : Text → Bool) (names : List Text) (encs : List Enc) (n : Nat) :
+    List Text → Except Err (List SparseRow)
+  | [] => .ok []
+  | line :: ls =>
+    if line.head? = some PCT then sparseRowsG pi fl names encs n ls
+    else match arffSparseLineG pi n line with
+      | .error e => .error e
+      | .ok raw =>
+        let extra := ((notSparse encs).filter (fun (i : Nat) => !(raw.any (fun p => p.1 = (i : Int))))).map (fun (i : Nat) => ((i : Int), ZERO))
+        match sparseItemsG fl names encs (raw ++ extra) with
+        | .error e => .error e
+        | .ok items => match sparseRowsG pi fl names encs n ls with
+          | .error e => .error e
+          | .ok r => .ok (⟨items, sparseMissing line⟩ :: r)
+
+def arffReadNG (pi : Text → Option Int) (fl : Text → Bool) (ls : List Text) : Except Err ArffResult :=
+  let head := ls.takeWhile (fun l => lowerAscii l ≠ kwData)
+  let attrLines := head.filter (fun l => lowerAscii (l.take 5) = kwAttr)
+  let data := (ls.dropWhile (fun l => lowerAscii l ≠ kwData)).drop 1
+  let data := data.dropWhile (fun l => l.head? = some PCT)
+  match data with
+  | [] => .ok .empty
+  | first :: _ =>
+    let isDense := !(first.head? = some LBRACE) || !(first.getLast? = some RBRACE)
+    match arffAttrs isDense [] attrLines with
+    | .error e => .error e
+    | .ok [] => .error .valueError
+    | .ok attrs =>
+      let names := attrs.map (·.1)
+      let encs := attrs.map (·.2)
+      if isDense then
+        match denseRowsG fl encs attrLines.length ALRF.init data with
+        | .error e => .error e
+        | .ok rows => .ok (.dense names rows)
+      else
+        match sparseRowsG pi fl names encs attrLines.length data with
+        | .error e => .error e
+        | .ok rows => .ok (.sparse names rows)
+
+def arffReadG (pi : Text → Option Int) (fl : Text → Bool) (lines : List Text) : Except Err ArffResult :=
+  arffReadNG pi fl (arffNormalize lines)
+
+/-- `list(ArffReader().filter(lines))`, rows materialised, with `int()` / `float()` as CPython reads them
+(underscores between digits accepted, `\x1c`–`\x1f` not skipped) -/
+def arffReadPy (lines : List Text) : Except Err ArffResult := arffReadG parseIntPy isFloatLitPy lines
+
+/-- a character that is neither an underscore nor one of the separators `\x1c`–`\x1f` -/
+def numClean (c : Nat) : Bool := !(c == US) && !(28 ≤ c && c ≤ 31)
+
+/-- a file free of underscores and `\x1c`–`\x1f` -/
+def linesNumClean (lines : List Text) : Bool := lines.all (fun l => l.all numClean)
+
+/-! ### phase 5: the fallback parser on lines whose pieces do not start with a quote character; `_fallback_delim` undecided -/
+
+/-- what `_dense_advanced` makes of a piece that does not start with a quote character: `lstrip`, every backslash deleted -/
+def advClean (p : Text) : Text := (lstrip p).filter (· != BS)
+
+/-- after `lstrip` the piece does not start with a quote character (it may hold quote characters further in) -/
+def pieceUnquoted (p : Text) : Bool := match lstrip p with | c :: _ => !isQuoteCh c | [] => true
+
+/-- `self._fallback_delim = ',' if len(line.split(',')) > len(line.split('\t')) else '\t'` -/
+def fallbackDelim (line : Text) : Nat := if (splitOn COMMA line).length > (splitOn TAB line).length then COMMA else TAB
+
+/-- the `while d_line` loop on pieces none of which starts with a quote character: IndexError (`item[0]`) when a piece is
+blank, otherwise every piece cleaned -/
+def advUnquoted (ps : List Text) : Except Err (List Text) :=
+  if ps.all (fun p => lstrip p != []) then .ok (ps.map advClean) else .error .indexError
+
+/-- a value the fallback parser returns verbatim when it splits at commas: not empty, does not start with white space or a
+quote character, holds no comma and no backslash (tabs and quote characters further in are allowed) -/
+def innerTok (v : Text) : Bool :=
+  (match v with | c :: _ => !isPySpace c && !isQuoteCh c | [] => false) && v.all (fun c => !(c == COMMA || c == BS))
+
+/-! ### phase 5: LibSVM / Manik with `int()` / `float()` of the tokens as CPython reads them -/
+
+/-- `{ int(k):float(v) for … }` of one tokenised row: keys through `parseIntPy`, values must pass `isFloatLitPy`
+(their text is kept; the value of an accepted literal is CPython's), dict semantics (`dictOf`: first insertion fixes the
+position, the last value wins); any failure is a ValueError -/
+def svmRowPy (r : SvmRow) : Except Err (List (Int × Text) × List Text) :=
+  match parseKeysG parseIntPy (r.feats.map (·.1)) with
+  | .error e => .error e
+  | .ok keys =>
+    if r.feats.all (fun kv => isFloatLitPy kv.2) then .ok (dictOf (keys.zip (r.feats.map (·.2))), r.labels)
+    else .error .valueError
+
+def svmRowsPy : List SvmRow → Except Err (List (List (Int × Text) × List Text))
+  | [] => .ok []
+  | r :: rs => match svmRowPy r with
+    | .error e => .error e
+    | .ok x => match svmRowsPy rs with
+      | .error e => .error e
+      | .ok xs => .ok (x :: xs)
+
+/-- `list(LibsvmReader().filter(lines))` with the conversions -/
+def libsvmReadPy (lines : List Text) : Except Err (List (List (Int × Text) × List Text)) :=
+  match libsvmRead lines with
+  | .error e => .error e
+  | .ok rows => svmRowsPy rows
+
+/-- `list(ManikReader().filter(lines))` with the conversions -/
+def manikReadPy (lines : List Text) : Except Err (List (List (Int × Text) × List Text)) := libsvmReadPy (lines.drop 1)
+
+/-- what the reader must return for a written row: index ↦ value (as a dict), labels -/
+def svmRowOutPy (r : SvmRow) : List (Int × Text) × List Text :=
+  (dictOf (r.feats.map (fun kv => (digitsVal kv.1, kv.2))), r.labels)
+
+/-- indices are decimal digit strings, values are literals `float()` accepts -/
+def svmNumOk (r : SvmRow) : Bool :=
+  r.feats.all (fun kv => kv.1 ≠ [] && kv.1.all isDigit && isFloatLitPy kv.2)
+
 end Coba.C12
